@@ -383,7 +383,7 @@ func checkC01(c *hx.Checker) {
 		"Templates: Add/Sub/Mul (all ordered pairs for Sub), Relu, Transpose, Softmax{axis=-1}, Softmax{axis=0}, MatMul, Gemm{transB}, Gemm{transA,alpha=.5,beta=2} (C wired / omitted / empty), Concat+Slice, Reshape, Squeeze, Constant, RNN/GRU/LSTM with default and with explicit non-default activations (initial_h omitted / empty / wired; 5 output naming schemes: arbitrary, spec names, permuted spec names, trailing output omitted, skipped output with empty name). " +
 		"BFS: all programs of depth <= 2 over the full alphabet; depth 3 over the reduced alphabet {Sub, Relu, Transpose, Gemm2, GRU} as chains (each node consumes its predecessor's result)" +
 		map[bool]string{true: " and, thorough, unrestricted depth 3 over the reduced alphabet plus ALL depth-3 programs over the full alphabet (streamed simplest-first under a 25-minute budget; the evidence says whether it completed)", false: ""}[thorough] +
-		"; 2 input value sets; every depth<=1 program also with w1 declared as graph input (not supplied / supplied with another value), with the graph inputs declared with symbolic dims / without shape, and with the initializer w1 and the graph input a declared as graph outputs (passthrough); with value_info entries for every intermediate value, and with one output name more than the last node's operator returns (declared as graph output: Run must fail), with the last graph output declared twice, and with the caller's map carrying other tensors under the names of the intermediate values (computed correctly or refused); scalar (rank-0) graph inputs with and without an initializer default; one 5-node program under 7 value-naming schemes (prefixes of each other, case-only differences, odd characters, numeric-looking, very long, keyword-like) x 4 orders of the input / initializer / output lists; a chain of 600 nodes. Every program is marshalled, loaded with NewModelFromBytes and Run with EVERY intermediate value declared as graph output, and compared value by value with the reference evaluation of the same graph. " +
+		"; 2 input value sets; every depth<=1 program also with w1 declared as graph input (not supplied / supplied with another value), with the graph inputs declared with symbolic dims / without shape, and with the initializer w1 and the graph input a declared as graph outputs (passthrough); with value_info entries for every intermediate value, and with one output name more than the last node's operator returns (declared as graph output: Run must fail), with the last graph output declared twice, and with the caller's map carrying other tensors under the names of the intermediate values (computed correctly or refused); scalar (rank-0) graph inputs with and without an initializer default; one 5-node program under 7 value-naming schemes (prefixes of each other, case-only differences, odd characters, numeric-looking, very long, keyword-like) x 4 orders of the input / initializer / output lists; a chain of 600 nodes; 18 pairs of twin nodes (same operator, same inputs, one differing attribute of each kind) in 3 orders. Every program is marshalled, loaded with NewModelFromBytes and Run with EVERY intermediate value declared as graph output, and compared value by value with the reference evaluation of the same graph. " +
 		"states = program prefixes, transitions = appended node instances; non-trivial = programs with >= 1 node"
 	c.Assumptions = []string{"reference evaluator: ref interpreter applied node by node to a name->tensor environment (refeval.go)", "tolerance 1e-4 (abs+rel) on float32 values of magnitude <= ~10",
 		"a node listing fewer output names than the operator returns may be refused (positional binding with length check) but must never yield nil / missing outputs"}
@@ -497,12 +497,12 @@ func checkC01(c *hx.Checker) {
 	{
 		base := []string{"a", "b", "w1", "w2", "x", "y", "z", "t", "u"}
 		schemes := map[string][]string{
-			"plain":        base,
-			"prefixes":     {"a", "aa", "aaa", "aaaa", "a_", "a__", "a_a", "aa_", "_a"},
-			"case":         {"x", "X", "w", "W", "Y", "y", "Z", "z", "xX"},
-			"odd-chars":    {"in put", "in.put", "wei/ght", "w:2", " x", "y ", "z\tz", "t\"", "\u00fc"},
-			"numeric":      {"0", "1", "00", "01", "10", "1.0", "-1", "1e3", "0x1"},
-			"very-long":    {strings.Repeat("a", 300), strings.Repeat("a", 301), strings.Repeat("w", 4000), strings.Repeat("w", 3999) + "W", "x" + strings.Repeat("y", 999), strings.Repeat("y", 1000), "z", "t", strings.Repeat("u", 70000)},
+			"plain":         base,
+			"prefixes":      {"a", "aa", "aaa", "aaaa", "a_", "a__", "a_a", "aa_", "_a"},
+			"case":          {"x", "X", "w", "W", "Y", "y", "Z", "z", "xX"},
+			"odd-chars":     {"in put", "in.put", "wei/ght", "w:2", " x", "y ", "z\tz", "t\"", "\u00fc"},
+			"numeric":       {"0", "1", "00", "01", "10", "1.0", "-1", "1e3", "0x1"},
+			"very-long":     {strings.Repeat("a", 300), strings.Repeat("a", 301), strings.Repeat("w", 4000), strings.Repeat("w", 3999) + "W", "x" + strings.Repeat("y", 999), strings.Repeat("y", 1000), "z", "t", strings.Repeat("u", 70000)},
 			"like-keywords": {"input", "output", "Input", "initializer", "tensor", "nil", "null", "_", "y_pred"},
 		}
 		av, bv := recFill(ref.F32, []int{2, 2}, 41), recFill(ref.F32, []int{2, 2}, 42)
@@ -579,6 +579,84 @@ func checkC01(c *hx.Checker) {
 		mc := newModelCase(hx.Marshal(hx.Model(g, 13)), map[string]*ref.T{"v0": av}, "outputs", exp, hx.Tol(1e-4, 1e-4), "")
 		mc.Graph = "chain of 600 nodes"
 		c.Case(hx.CaseInfo{ID: "naming/long-chain-600", Tags: []string{"naming", "long-chain"}, NonTrivial: true}, func() *hx.Violation { return mc.run() })
+	}
+	// twin nodes: two nodes of the same operator on the same inputs that differ in exactly one attribute, of every
+	// attribute kind (int, float, ints, floats, string, strings, tensor) - "two nodes of the same operator type never
+	// influence each other", and neither may be taken for a repetition of the other
+	{
+		x := recFill(ref.F32, []int{2, 3}, 51)
+		x3 := recFill(ref.F32, []int{2, 1, 3}, 52)
+		img := recFill(ref.F32, []int{1, 1, 4, 4}, 53)
+		ker := recFill(ref.F32, []int{1, 1, 2, 2}, 54)
+		rx, rw, rr := recFill(ref.F32, []int{2, 1, 2}, 55), recFill(ref.F32, []int{1, 6, 2}, 56), recFill(ref.F32, []int{1, 6, 2}, 57)
+		sq := recFill(ref.F32, []int{3, 3}, 58)
+		type twin struct {
+			op     string
+			ins    []*ref.T
+			a, b   []hx.Attr
+			nOut   int
+			define string
+		}
+		twins := []twin{
+			{"Transpose", []*ref.T{x3}, []hx.Attr{hx.AInts("perm", 2, 1, 0)}, []hx.Attr{hx.AInts("perm", 1, 0, 2)}, 1, "ints"},
+			{"ReduceMax", []*ref.T{x}, []hx.Attr{hx.AInts("axes", 0), hx.AInt("keepdims", 1)}, []hx.Attr{hx.AInts("axes", 1), hx.AInt("keepdims", 1)}, 1, "ints"},
+			{"ReduceMin", []*ref.T{x}, []hx.Attr{hx.AInts("axes", 1), hx.AInt("keepdims", 1)}, []hx.Attr{hx.AInts("axes", 1), hx.AInt("keepdims", 0)}, 1, "int"},
+			{"Softmax", []*ref.T{x}, []hx.Attr{hx.AInt("axis", 0)}, []hx.Attr{hx.AInt("axis", 1)}, 1, "int"},
+			{"ArgMax", []*ref.T{x}, []hx.Attr{hx.AInt("axis", 0), hx.AInt("keepdims", 1)}, []hx.Attr{hx.AInt("axis", 1), hx.AInt("keepdims", 1)}, 1, "int"},
+			{"Gemm", []*ref.T{sq, sq}, []hx.Attr{hx.AFloat("alpha", 0.5)}, []hx.Attr{hx.AFloat("alpha", 2)}, 1, "float"},
+			{"Gemm", []*ref.T{sq, sq}, []hx.Attr{hx.AInt("transA", 1)}, []hx.Attr{hx.AInt("transB", 1)}, 1, "name"},
+			{"Flatten", []*ref.T{x3}, []hx.Attr{hx.AInt("axis", 1)}, []hx.Attr{hx.AInt("axis", 2)}, 1, "int"},
+			{"Concat", []*ref.T{sq, sq}, []hx.Attr{hx.AInt("axis", 0)}, []hx.Attr{hx.AInt("axis", 1)}, 1, "int"},
+			{"Cast", []*ref.T{x}, []hx.Attr{hx.AInt("to", 11)}, []hx.Attr{hx.AInt("to", 6)}, 1, "int"},
+			{"Scaler", []*ref.T{x}, []hx.Attr{hx.AFloats("offset", 0.5, -1, 2), hx.AFloats("scale", 2, 0.5, -1)}, []hx.Attr{hx.AFloats("offset", 0.5, -1, 2), hx.AFloats("scale", 2, 0.5, 3)}, 1, "floats"},
+			{"LinearRegressor", []*ref.T{x}, []hx.Attr{hx.AFloats("coefficients", 0.5, -1, 2), hx.AInt("targets", 1)}, []hx.Attr{hx.AFloats("coefficients", 0.5, 1, 2), hx.AInt("targets", 1)}, 1, "floats"},
+			{"Conv", []*ref.T{img, ker}, []hx.Attr{hx.AInts("strides", 1, 2)}, []hx.Attr{hx.AInts("strides", 2, 1)}, 1, "ints"},
+			{"Conv", []*ref.T{img, ker}, []hx.Attr{hx.AStr("auto_pad", "SAME_UPPER")}, []hx.Attr{hx.AStr("auto_pad", "SAME_LOWER")}, 1, "string"},
+			{"GRU", []*ref.T{rx, rw, rr}, []hx.Attr{hx.AInt("hidden_size", 2), hx.AStrs("activations", "sigmoid", "tanh")}, []hx.Attr{hx.AInt("hidden_size", 2), hx.AStrs("activations", "tanh", "sigmoid")}, 2, "strings"},
+			{"Constant", nil, []hx.Attr{hx.ATensor("value", recFill(ref.F32, []int{2}, 61), "raw")}, []hx.Attr{hx.ATensor("value", recFill(ref.F32, []int{2}, 62), "raw")}, 1, "tensor"},
+			{"Constant", nil, []hx.Attr{hx.AFloats("value_floats", 1, 2)}, []hx.Attr{hx.AFloats("value_floats", 1, 3)}, 1, "floats"},
+			{"ConstantOfShape", []*ref.T{ref.I64Vec(2)}, []hx.Attr{hx.ATensor("value", ref.FromF(ref.F32, []int{1}, 1.5), "raw")}, []hx.Attr{hx.ATensor("value", ref.FromF(ref.F32, []int{1}, 2.5), "raw")}, 1, "tensor"},
+		}
+		for ti, tw := range twins {
+			for _, order := range []string{"ab", "ba", "aba"} {
+				g := &onnx.GraphProto{Name: "g"}
+				feed := map[string]*ref.T{}
+				var inNames []string
+				for i, t := range tw.ins {
+					nm := fmt.Sprintf("in%d", i)
+					inNames = append(inNames, nm)
+					if t.DT == ref.I64 || i > 0 {
+						g.Initializer = append(g.Initializer, hx.TensorProto(nm, t, "raw"))
+					} else {
+						g.Input = append(g.Input, hx.ValueInfo(nm, t.DT, hx.FixedDims(t.Shape)))
+						feed[nm] = t
+					}
+				}
+				exp := map[string]*ref.T{}
+				for k, which := range order {
+					attrs := tw.a
+					if which == 'b' {
+						attrs = tw.b
+					}
+					outs, err := refEval(tw.op, attrs, tw.ins)
+					if err != nil {
+						hx.HarnessError("twin %s: reference: %v", tw.op, err)
+					}
+					var onames []string
+					for j := 0; j < tw.nOut; j++ {
+						nm := fmt.Sprintf("n%d_o%d", k, j)
+						onames = append(onames, nm)
+						g.Output = append(g.Output, hx.ValueInfoNoShape(nm))
+						exp[nm] = outs[j]
+					}
+					g.Node = append(g.Node, hx.Node(tw.op, inNames, onames, attrs))
+				}
+				mc := newModelCase(hx.Marshal(hx.Model(g, 13)), feed, "outputs", exp, hx.Tol(1e-4, 1e-4), "")
+				mc.Graph = fmt.Sprintf("twin %s nodes differing in one %s attribute, order %s", tw.op, tw.define, order)
+				id := fmt.Sprintf("twin-nodes/%d:%s/%s/%s", ti, tw.op, tw.define, order)
+				c.Case(hx.CaseInfo{ID: id, Tags: []string{"twin-nodes", "op=" + tw.op, "attr-kind=" + tw.define}, NonTrivial: true}, func() *hx.Violation { return mc.run() })
+			}
+		}
 	}
 	// scalar (rank-0) graph inputs: declared with an empty shape or without shape, with / without an initializer
 	// default, supplied or left to the default, also declared as graph output
